@@ -6,6 +6,8 @@ package c06
 import (
 	"crypto/ecdsa"
 	"fmt"
+	chainapp "github.com/EscanBE/evermint/v12/app"
+	"github.com/EscanBE/evermint/v12/app/params"
 	"math/big"
 	"strings"
 
@@ -55,6 +57,7 @@ func Run(run *vh.Run) {
 	run.Floor("replays of an executed Ethereum transaction through a governance proposal judged", run.Get("gov_replays_judged"), int64(run.N(4, 30)))
 	run.Rule = "Histories of Ethereum and Cosmos transactions on the real app with a hostile generator (unprotected, other chain ids, declared From != signer, payload or signature bit-flips after signing, stale and future nonces; Cosmos: wrong sequence / account number / chain id, foreign key, tampered body) and re-offering of every previously admitted transaction (same block, next block, k blocks later, CheckTx). Per transaction the observer's sequence ledger must show: sender sequence +1 iff admitted (consensus result carries ante events), 0 otherwise; admitted nonce == pre-state sequence; no other EOA's sequence moves; rejected => empty full-store write set; hostile and replayed transactions never admitted. Non-trivial = distinct (lane x class x execution outcome)."
 	run.Floor("admitted transactions", run.Get("admitted"), int64(run.N(400, 8000)))
+	run.Floor("transactions signed with the key of an account that holds code and has a sequence", run.Get("hostile_contract_as_sender_with_a_sequence_offered"), int64(run.N(5, 100)))
 	run.Floor("hostile transactions", run.Get("hostile_offered"), int64(run.N(150, 3000)))
 	run.Floor("replays attempted", run.Get("replays_offered"), int64(run.N(150, 3000)))
 	run.Floor("replays with signer_infos.sequence rewritten to the current sequence", run.Get("replays_offered_with_rewritten_sequence"), int64(run.N(30, 600)))
@@ -75,9 +78,21 @@ func world(run *vh.Run, label string, wi, nBlocks int) {
 	// two accounts kept at the same sequence: a transaction signed by the first is, right after the node has seen it,
 	// offered again declared as coming from the second (whose sequence equals its nonce)
 	twinA, twinB := vh.NewAcct(r), vh.NewAcct(r)
+	codeSenders = []*vh.Acct{vh.NewAcct(r), vh.NewAcct(r), vh.NewAcct(r)}
+	var codeAccounts []evmtypes.GenesisAccount
+	for _, cs := range codeSenders {
+		codeAccounts = append(codeAccounts, evmtypes.GenesisAccount{Address: cs.Addr.Hex(), Code: common.Bytes2Hex(vh.NewAsm().Op(vm.STOP).Bytes())})
+	}
 	w := vh.NewWorld(r, vh.WorldOpts{Chain: vh.Config{Seed: r.U64(), NumVals: 1, MaxGas: maxGas,
 		Accounts: []vh.GenAccount{{Addr: aliasSigner.Addr, Coins: vh.NativeCoins(100)}, {RawAddr: aliasRaw, Coins: vh.NativeCoins(100)},
-			{Addr: twinA.Addr, Coins: vh.NativeCoins(100)}, {Addr: twinB.Addr, Coins: vh.NativeCoins(100)}}},
+			{Addr: twinA.Addr, Coins: vh.NativeCoins(100)}, {Addr: twinB.Addr, Coins: vh.NativeCoins(100)},
+			{Addr: codeSenders[0].Addr, Coins: vh.NativeCoins(100)}, {Addr: codeSenders[1].Addr, Coins: vh.NativeCoins(100), Sequence: 1}, {Addr: codeSenders[2].Addr, Coins: vh.NativeCoins(100), Sequence: 9}},
+		MutateGenesis: func(enc params.EncodingConfig, gs chainapp.GenesisState) {
+			var eg evmtypes.GenesisState
+			enc.Codec.MustUnmarshalJSON(gs[evmtypes.ModuleName], &eg)
+			eg.Accounts = append(eg.Accounts, codeAccounts...)
+			gs[evmtypes.ModuleName] = enc.Codec.MustMarshalJSON(&eg)
+		}},
 		NumEOA: 6, Prog: vh.ProgOpts{MaxLen: 6, Depth: 1}})
 	defer w.C.Cleanup()
 	c := w.C
@@ -229,6 +244,12 @@ func world(run *vh.Run, label string, wi, nBlocks int) {
 				cls = "hostile:" + p.hostile
 				run.Count("hostile_offered", 1)
 				run.Distinct("hostile_classes", p.hostile)
+				if p.hostile == "contract-as-sender" {
+					run.Count("hostile_contract_as_sender_offered", 1)
+					if c.Nonce(p.Sender.Addr) > 0 {
+						run.Count("hostile_contract_as_sender_with_a_sequence_offered", 1)
+					}
+				}
 			}
 			if p.replayOf != "" {
 				run.Count("replays_offered", 1)
@@ -340,10 +361,28 @@ var secpN, _ = new(big.Int).SetString("fffffffffffffffffffffffffffffffebaaedce6a
 var (
 	aliasSigner *vh.Acct
 	aliasRaw    []byte
+	// accounts that hold contract code although a key for them is known (code given at genesis, as a state migration
+	// would): sequence 0, and sequences > 0 (an address that sent transactions before it got code)
+	codeSenders []*vh.Acct
 )
 
 func hostile(w *vh.World, r *vh.RNG, s *vh.Acct) *plan {
 	c := w.C
+	if len(codeSenders) > 0 && r.Chance(1, 10) {
+		// correctly signed, correct nonce, funded: but the sender is a contract
+		cs := vh.Pick(r, codeSenders)
+		to := vh.Pick(r, w.Pool)
+		var txd ethtypes.TxData = &ethtypes.LegacyTx{Nonce: c.Nonce(cs.Addr), To: &to, Value: big.NewInt(7), Gas: 30000, GasPrice: new(big.Int).Mul(c.BaseFee(), big.NewInt(3))}
+		if r.Bool() {
+			txd = &ethtypes.DynamicFeeTx{ChainID: big.NewInt(vh.EIP155ID), Nonce: c.Nonce(cs.Addr), To: &to, Value: big.NewInt(7), Gas: 30000, GasFeeCap: new(big.Int).Mul(c.BaseFee(), big.NewInt(3)), GasTipCap: big.NewInt(1)}
+		}
+		tx := vh.SignEth(cs, txd)
+		bz, err := c.WrapEthErr(tx, cs.Addr)
+		if err != nil {
+			return nil
+		}
+		return &plan{TxPlan: &vh.TxPlan{Kind: "eth-hostile", Class: "contract-as-sender", Sender: cs, Tx: tx, Bytes: bz}, hostile: "contract-as-sender"}
+	}
 	if aliasSigner != nil && r.Chance(1, 12) {
 		// declared sender = the 32-byte account ending in the signer's address; nonce = that account's sequence (0)
 		to := vh.Pick(r, w.Pool)
